@@ -140,6 +140,26 @@ def convergesX (streak bound : Nat) (o : XOut G) : Bool :=
 def readFaultReportedX (readFailed : Bool) (o : XOut G) : Bool :=
   if readFailed then o.err else true
 
+/-- **C05 / C07 / C13 (refused configuration)** — a Manager call whose network provider cannot be built
+    (`newNetworkProvider` returns an error: a Gateway API ref without a canary Service of its own — the two
+    Service names coincide —, an Ingress class without Lua script, no provider at all) writes no provider object
+    and leaves the provider's objects as they were (`sameG`), and it never reports completion:
+    `DoTrafficRouting` reports *done* only when there is nothing to route, `FinalisingTrafficRouting` only
+    without a ref; `RestoreGateway` / `RouteAllTrafficToNewVersion` return the error. -/
+def refusedX (call : String) (c : XCtx S) (step : Bool) (sameG : Bool) (o : XOut G) : Bool :=
+  !providerTouched o.writes && sameG &&
+  (match call with
+   | "doTrafficRouting" => !(o.done && c.hasRef && step)
+   | "finalisingTrafficRouting" => !(o.done && c.hasRef)
+   | "restoreGateway" | "routeAllToNew" => !c.hasRef || (o.err && !o.done)
+   | _ => true)
+
+/-- **C03 / C09 (selector-less stable Service)** — a `DoTrafficRouting` that would have to generate the canary
+    Service from a stable Service without selector returns an error and changes nothing (`sameNet`): no write,
+    no new grace period. -/
+def selectorlessRefusedX (sameNet : Bool) (m : Mem) (o : XOut G) : Bool :=
+  o.err && !o.done && o.writes.isEmpty && !o.touched && sameNet && memSame o.mem m
+
 /-! ## the specs of the three real providers -/
 
 section concrete
